@@ -2,6 +2,8 @@
 //! sinks that accept chosen prefixes and fail at a chosen call, and consumer drivers.
 
 use std::io::{self, BufRead, Read, Write};
+use std::sync::atomic::{AtomicBool, AtomicU64, Ordering};
+use std::sync::Arc;
 
 use crate::engine::Tape;
 
@@ -103,6 +105,26 @@ pub fn injected() -> io::Error {
 
 /// A source delivering `data` according to a schedule; optionally failing (stickily) at call k
 /// (0-based index over read/fill_buf calls that would have to touch the source).
+/// Shared observation point for a source/sink that has been moved into the library.
+#[derive(Debug, Default)]
+pub struct Probe {
+    pub calls: AtomicU64,
+    pub failed: AtomicBool,
+    pub bytes: AtomicU64,
+}
+
+impl Probe {
+    pub fn new() -> Arc<Probe> {
+        Arc::new(Probe::default())
+    }
+    pub fn calls(&self) -> u64 {
+        self.calls.load(Ordering::Relaxed)
+    }
+    pub fn failed(&self) -> bool {
+        self.failed.load(Ordering::Relaxed)
+    }
+}
+
 #[derive(Debug)]
 pub struct SchedRead {
     data: Vec<u8>,
@@ -114,6 +136,9 @@ pub struct SchedRead {
     pub fail_at: Option<u64>,
     pub failed: bool,
     pub handed_out: u64,
+    pub probe: Option<Arc<Probe>>,
+    /// true: every call after the fault fails too (broken device); false: one transient fault
+    pub sticky: bool,
 }
 
 impl SchedRead {
@@ -128,16 +153,32 @@ impl SchedRead {
             fail_at: None,
             failed: false,
             handed_out: 0,
+            probe: None,
+            sticky: true,
         }
     }
     pub fn failing_at(mut self, k: u64) -> Self {
         self.fail_at = Some(k);
         self
     }
+    pub fn with_probe(mut self, p: Arc<Probe>) -> Self {
+        self.probe = Some(p);
+        self
+    }
+    pub fn one_shot(mut self, one_shot: bool) -> Self {
+        self.sticky = !one_shot;
+        self
+    }
     fn next_piece(&mut self) -> io::Result<()> {
         // called when the current piece is exhausted
-        if self.failed || self.fail_at == Some(self.calls) {
+        if let Some(p) = &self.probe {
+            p.calls.fetch_add(1, Ordering::Relaxed);
+        }
+        if (self.failed && self.sticky) || self.fail_at == Some(self.calls) {
             self.failed = true;
+            if let Some(p) = &self.probe {
+                p.failed.store(true, Ordering::Relaxed);
+            }
             self.calls += 1;
             return Err(injected());
         }
@@ -188,14 +229,24 @@ pub struct SchedWrite {
     pub fail_at: Option<u64>,
     pub failed: bool,
     pub fail_flush: bool,
+    pub probe: Option<Arc<Probe>>,
+    pub sticky: bool,
 }
 
 impl SchedWrite {
     pub fn new(sched: Sched) -> Self {
-        SchedWrite { data: vec![], sched, piece_i: 0, calls: 0, fail_at: None, failed: false, fail_flush: true }
+        SchedWrite { data: vec![], sched, piece_i: 0, calls: 0, fail_at: None, failed: false, fail_flush: true, probe: None, sticky: true }
     }
     pub fn failing_at(mut self, k: u64) -> Self {
         self.fail_at = Some(k);
+        self
+    }
+    pub fn with_probe(mut self, p: Arc<Probe>) -> Self {
+        self.probe = Some(p);
+        self
+    }
+    pub fn one_shot(mut self, one_shot: bool) -> Self {
+        self.sticky = !one_shot;
         self
     }
 }
@@ -205,8 +256,14 @@ impl Write for SchedWrite {
         if buf.is_empty() {
             return Ok(0);
         }
-        if self.failed || self.fail_at == Some(self.calls) {
+        if let Some(p) = &self.probe {
+            p.calls.fetch_add(1, Ordering::Relaxed);
+        }
+        if (self.failed && self.sticky) || self.fail_at == Some(self.calls) {
             self.failed = true;
+            if let Some(p) = &self.probe {
+                p.failed.store(true, Ordering::Relaxed);
+            }
             self.calls += 1;
             return Err(injected());
         }
@@ -218,7 +275,7 @@ impl Write for SchedWrite {
         Ok(n)
     }
     fn flush(&mut self) -> io::Result<()> {
-        if self.failed {
+        if self.failed && self.sticky {
             return Err(injected());
         }
         Ok(())
